@@ -4,6 +4,8 @@ import (
 	"fmt"
 	"go/token"
 	"go/types"
+	"os"
+	"strings"
 	"unicode/utf8"
 
 	"golang.org/x/tools/go/ssa"
@@ -79,6 +81,80 @@ type mergeOutcome struct {
 type miniPath struct {
 	cond *Term
 	vals []Value // phi inputs at the join, or {ret}
+	env  []Value // registers when the join was reached
+}
+
+// sameValue: cheap identity test (immutable values).
+func sameValue(a, b Value) bool {
+	switch x := a.(type) {
+	case nil:
+		return b == nil
+	case *Term:
+		y, ok := b.(*Term)
+		return ok && x == y
+	case *Struct:
+		y, ok := b.(*Struct)
+		return ok && x == y
+	case *Array:
+		y, ok := b.(*Array)
+		return ok && x == y
+	case Ptr:
+		y, ok := b.(Ptr)
+		return ok && ptrIdentical(x, y)
+	case Slice:
+		y, ok := b.(Slice)
+		return ok && ptrIdentical(x.Base, y.Base) && x.Off == y.Off && x.Len == y.Len && x.Cap == y.Cap
+	case Str:
+		y, ok := b.(Str)
+		if !ok || len(x.B) != len(y.B) {
+			return false
+		}
+		for i := range x.B {
+			if x.B[i] != y.B[i] {
+				return false
+			}
+		}
+		return true
+	case Iface:
+		y, ok := b.(Iface)
+		if !ok {
+			return false
+		}
+		if x.T == nil || y.T == nil {
+			return x.T == nil && y.T == nil
+		}
+		return types.Identical(x.T, y.T) && sameValue(x.V, y.V)
+	case *Closure:
+		y, ok := b.(*Closure)
+		return ok && x == y
+	case MapRef:
+		y, ok := b.(MapRef)
+		return ok && x.Obj == y.Obj
+	case ChanRef:
+		y, ok := b.(ChanRef)
+		return ok && x.Obj == y.Obj
+	case Float:
+		y, ok := b.(Float)
+		return ok && x.F == y.F
+	case Tuple:
+		y, ok := b.(Tuple)
+		if !ok || len(x) != len(y) {
+			return false
+		}
+		for i := range x {
+			if !sameValue(x[i], y[i]) {
+				return false
+			}
+		}
+		return true
+	case *mapIter:
+		y, ok := b.(*mapIter)
+		return ok && x == y
+	case *strIter:
+		y, ok := b.(*strIter)
+		return ok && x == y
+	}
+	return false
 }
 
 type specItem struct {
@@ -86,6 +162,7 @@ type specItem struct {
 	prev  *ssa.BasicBlock
 	cond  *Term
 	env   []Value
+	wm    int // objects with ID <= wm existed before this mini-path's last split: read-only
 }
 
 const (
@@ -180,6 +257,12 @@ func (ex *Exec) tryMerge(fr *frame, block *ssa.BasicBlock, c *Term) (mergeOutcom
 	if ex.H != nil && ex.H.NoMerge {
 		return mergeOutcome{}, false
 	}
+	if nm := os.Getenv("VERIF_NOMERGE_IN"); nm != "" && strings.Contains(fr.fn.String(), nm) {
+		return mergeOutcome{}, false
+	}
+	if ym := os.Getenv("VERIF_MERGE_ONLY_IN"); ym != "" && !strings.Contains(fr.fn.String(), ym) {
+		return mergeOutcome{}, false
+	}
 	ip := fr.info.ipdomOf(fr.fn)[block.Index]
 	if ip == -2 {
 		return mergeOutcome{}, false
@@ -197,10 +280,7 @@ func (ex *Exec) tryMerge(fr *frame, block *ssa.BasicBlock, c *Term) (mergeOutcom
 	saveLocks, saveMaxLocks := ex.locksHeld, ex.maxLocks
 	saveDepth := ex.depth
 	saveCur := ex.curFrame
-	outer := ex.speculating == 0
-	if outer {
-		ex.specWatermark = ex.objSeq
-	}
+	saveWM := ex.specWatermark
 	var paths []miniPath
 	ok := true
 	func() {
@@ -219,14 +299,17 @@ func (ex *Exec) tryMerge(fr *frame, block *ssa.BasicBlock, c *Term) (mergeOutcom
 		}()
 		blocks := 0
 		cp := func(e []Value) []Value { return append([]Value(nil), e...) }
+		// The heap is shared by all mini-paths, so after every split both
+		// continuations may write only objects allocated after that split.
 		stack := []specItem{
-			{block.Succs[1], block, ex.C.Not(c), cp(saveEnv)},
-			{block.Succs[0], block, c, cp(saveEnv)},
+			{block.Succs[1], block, ex.C.Not(c), cp(saveEnv), ex.objSeq},
+			{block.Succs[0], block, c, cp(saveEnv), ex.objSeq},
 		}
 		for len(stack) > 0 {
 			it := stack[len(stack)-1]
 			stack = stack[:len(stack)-1]
 			b, prev, cond, env := it.block, it.prev, it.cond, it.env
+			ex.specWatermark = it.wm
 			for {
 				fr.env = env
 				if b == join {
@@ -246,7 +329,7 @@ func (ex *Exec) tryMerge(fr *frame, block *ssa.BasicBlock, c *Term) (mergeOutcom
 						}
 						vals = append(vals, ex.get(fr, phi.Edges[predIdx]))
 					}
-					paths = append(paths, miniPath{cond, vals})
+					paths = append(paths, miniPath{cond, vals, env})
 					break
 				}
 				blocks++
@@ -300,7 +383,8 @@ func (ex *Exec) tryMerge(fr *frame, block *ssa.BasicBlock, c *Term) (mergeOutcom
 							case cf.IsConst() && cf.Val == 0:
 								next = b.Succs[0]
 							default:
-								stack = append(stack, specItem{b.Succs[1], b, cf, cp(env)})
+								stack = append(stack, specItem{b.Succs[1], b, cf, cp(env), ex.objSeq})
+								ex.specWatermark = ex.objSeq
 								cond = ct
 								next = b.Succs[0]
 							}
@@ -321,10 +405,10 @@ func (ex *Exec) tryMerge(fr *frame, block *ssa.BasicBlock, c *Term) (mergeOutcom
 							}
 							ret = tv
 						}
-						paths = append(paths, miniPath{cond, []Value{ret}})
+						paths = append(paths, miniPath{cond, []Value{ret}, nil})
 						ended = true
-					case *ssa.Panic, *ssa.RunDefers, *ssa.Defer, *ssa.Go, *ssa.Send, *ssa.Select:
-						panic(specAbort{})
+					case *ssa.Panic, *ssa.RunDefers, *ssa.Defer, *ssa.Go, *ssa.Send, *ssa.Select, *ssa.Next, *ssa.Range:
+						panic(specAbort{}) // (iterators are mutable engine objects)
 					default:
 						if pan := ex.step(fr, in); pan != nil {
 							panic(specAbort{})
@@ -342,6 +426,7 @@ func (ex *Exec) tryMerge(fr *frame, block *ssa.BasicBlock, c *Term) (mergeOutcom
 		}
 	}()
 	fr.env = saveEnv
+	ex.specWatermark = saveWM
 	fr.defers = fr.defers[:saveDefers]
 	ex.locksHeld, ex.maxLocks = saveLocks, saveMaxLocks
 	ex.depth = saveDepth
@@ -365,9 +450,49 @@ func (ex *Exec) tryMerge(fr *frame, block *ssa.BasicBlock, c *Term) (mergeOutcom
 		}
 		merged[k] = acc
 	}
-	ex.St.MergedBranch++
 	if join == nil {
+		ex.St.MergedBranch++
 		return mergeOutcome{returned: true, ret: merged[0]}, true
+	}
+	// Registers defined in blocks that dominate the join are live after it
+	// and may have been recomputed inside the region (a loop through the
+	// branch block, say): they are merged like phis.
+	type upd struct {
+		slot int
+		v    Value
+	}
+	var upds []upd
+	for slot, bi := range fr.info.slotBlock {
+		if bi < 0 || !fr.fn.Blocks[bi].Dominates(join) {
+			continue
+		}
+		same := true
+		for i := 1; i < len(paths); i++ {
+			if !sameValue(paths[i].env[slot], paths[0].env[slot]) {
+				same = false
+				break
+			}
+		}
+		if same {
+			if !sameValue(paths[0].env[slot], saveEnv[slot]) {
+				upds = append(upds, upd{slot, paths[0].env[slot]})
+			}
+			continue
+		}
+		acc := paths[len(paths)-1].env[slot]
+		for i := len(paths) - 2; i >= 0; i-- {
+			m, mok := ex.merge(paths[i].cond, paths[i].env[slot], acc)
+			if !mok {
+				ex.mergeFail[key]++
+				return mergeOutcome{}, false
+			}
+			acc = m
+		}
+		upds = append(upds, upd{slot, acc})
+	}
+	ex.St.MergedBranch++
+	for _, u := range upds {
+		fr.env[u.slot] = u.v
 	}
 	for k, m := range merged {
 		fr.env[fr.info.slots[join.Instrs[k].(*ssa.Phi)]] = m
